@@ -153,3 +153,13 @@ CHECKS['C01'] = dict(
     note='Claims these clauses only - NOT the fixed-point behaviour itself: the generated ALL(*) parser is not analysed, so import(export(x)) == x '
          'on all documents is not decided by this family.',
 )
+
+CHECKS['C03'] = dict(
+    category='other',
+    technique='grammar model (least fixpoint "every derivation assigns a token"; child-rule coverage of the note/rest/duration/chord handlers; handler-overrides-generated-listener), origin checks of verbatim encodings, no-drop dataflow to the joins, grid assembly shape, start-rule anchoring',
+    text='Decides necessary structural conditions of conservation: the listener assigns a token on every derivation of every field alternative and '
+         'every handler is really called; every component the grammar allows under note/rest/duration/chord is captured into a sub-token; non-note '
+         'tokens keep ctx.getText() / the raw cell and export it verbatim; the note export joins every filtered sub-token with its encoding '
+         'unchanged; rows and cells are assembled in order. Whole-cell consumption (F3) is a known finding.',
+    note='Claims these clauses only - NOT cell-for-cell equality of export and source: the generated parser is not analysed.',
+)
